@@ -556,7 +556,11 @@ pub fn load_known_findings() -> Vec<KnownFinding> {
 
 pub fn run_check(check: &dyn Check, tier: Tier, seed: u64) -> i32 {
     let t0 = Instant::now();
-    let plan = check.plan(tier, seed);
+    let mut plan = check.plan(tier, seed);
+    // sanitizer companions run a prefix of the same seeded workload (slower builds)
+    if let Some(n) = std::env::var("VERIF_CASES").ok().and_then(|s| s.parse::<u64>().ok()) {
+        plan.cases = plan.cases.min(n);
+    }
     let outcome = run_pool(check, tier, seed, &plan);
     let mut reports = outcome.reports;
     check.finish(tier, seed, &mut reports);
@@ -656,7 +660,8 @@ pub fn run_check(check: &dyn Check, tier: Tier, seed: u64) -> i32 {
         println!("  new-signature x{}: {}", n, sig);
     }
 
-    let broken = events < check.min_events(tier)
+    let capped = std::env::var("VERIF_CASES").is_ok();
+    let broken = (!capped && events < check.min_events(tier))
         || (evaluations > 0 && inconclusive_total * 2 > evaluations);
 
     let evidence = json!({
